@@ -237,6 +237,60 @@ def check (pid : String) (j : Json) : Except String Verdict := do
       if pid = "C03" then
         r := r.specFail (c03change prev o (if missed then some (rt, n) else none))
       if pid = "C04" && wasClosed then r := r.specFail (c04stopped o)
+    | "outage" =>
+      -- stream creation failed for whole reconnect budgets (no state change in the model: the receiver retries), then
+      -- succeeded: one reconnect
+      if jBoolD oj "noNewStream" false then
+        r := r.fail s!"{what}: the control plane became reachable again but the client never opened a new stream"
+        if pid = "C04" then r := r.specFail (some "C04.converges_after_reconnect: after stream creation failed for a whole reconnect budget the client never reconnects: no stream, no re-subscription, no further updates")
+        return { nontrivial := true, mismatch := r.mismatch, specfail := r.spec.head? }
+      r := r.op cfg (.touch .eds "e1" now) what
+      r := r.op cfg .reconnectDrain what
+      r := r.op cfg .publish what
+      let newSid := o.streams
+      let order := (o.reqs.filter (fun q => q.sid = newSid)).map (·.rt) |>.take (watchedTypes r.s).length
+      r := r.op cfg (.senderAdopt order order.length) what
+      r := r.drain cfg
+      r := r.compare o oj uni what
+      if pid = "C04" then
+        r := r.specFail (c04reconnect prev o newSid)
+        if jStrD oj "servedDuring" "" != "val:e1#1" then
+          r := r.specFail (some s!"C04.cache_survives: during the outage the cached endpoint set was answered with {jStrD oj "servedDuring" ""}")
+    | "stalled-reconnect" =>
+      let rt ← match rtOfStr (jStrD st "rt" "?") with | some t => pure t | none => throw "stalled-reconnect: type"
+      let first ← jStr st "first"
+      let names ← jStrList st "names"
+      -- the lookup whose request is in flight when the connection stalls; its Send fails once the stream is closed
+      r := r.op cfg (.touch rt first now) what
+      r := r.op cfg (.subscribe rt first) what
+      r := r.op cfg (.senderSend true) s!"{what}: the stalled Send fails"
+      r := r.op cfg .reconnectDrain what
+      r := r.op cfg .publish what
+      for n in names do
+        r := r.op cfg (.touch rt n now) what
+        r := r.op cfg (.subscribe rt n) what
+      -- the sender's choice (new stream first, or queued requests first) is read off the new stream's log
+      let newSid := o.streams
+      let onNew := o.reqs.filter (fun q => q.sid = newSid)
+      let nW := (watchedTypes r.s).length
+      let order := (onNew.map (·.rt)).take nW
+      let sentAfter := onNew.length - nW
+      let dropped := names.length - sentAfter
+      for _ in List.range dropped do
+        r := r.op cfg (.senderSend false) s!"{what}: request taken while the sender has no stream"
+      r := r.op cfg (.senderAdopt order order.length) what
+      r := r.drain cfg
+      r := r.compare o oj uni what
+      if pid = "C04" then r := r.specFail (c04stalled prev o newSid)
+    | "burst" =>
+      -- lookups of distinct uncached names while the connection is stalled; observed after it resumed
+      let rt ← match rtOfStr (jStrD st "rt" "?") with | some t => pure t | none => throw "burst: type"
+      for n in (← jStrList st "names") do
+        r := r.op cfg (.touch rt n now) what
+        r := r.op cfg (.subscribe rt n) what
+      r := r.drain cfg
+      r := r.compare o oj uni what
+      if pid = "C03" then r := r.specFail (c03burst prev o rt (← jStrList st "names") (nodeOk oj))
     | "pushUnknown" =>
       r := r.op cfg .pushUnknown what
       r := r.drain cfg
@@ -317,7 +371,7 @@ def check (pid : String) (j : Json) : Except String Verdict := do
     | x => throw s!"unknown step {x}"
     r := r.track o
     if pid = "C03" then
-      r := r.specFail (c03 o (nodeOk oj))
+      if kind != "burst" && kind != "stalled-reconnect" then r := r.specFail (c03 o (nodeOk oj))
       let stale := o.closed || !sendOk || r.failing.contains o.streams
       if !stale then r := r.specFail (c03quiescent o (fun rt => (r.lastOnLive.find? (fun e => e.1 = rt)).map (·.2)))
     if pid = "C04" then r := r.specFail (c04nonces o r.issued)
